@@ -43,6 +43,9 @@ Fixpoint template_of (ps : list str) (i : nat) : list item :=
 Definition template (fmt : str) : list item := template_of (pieces fmt) 0.
 Definition subst (t : list item) (args : list str) : str :=
   concat (map (fun it => match it with Lit s => s | Arg i => nth i args [] end) t).
+(* the same substitution with the text of marker i given as a function of i *)
+Definition subst_fn (t : list item) (text : nat -> str) : str :=
+  concat (map (fun it => match it with Lit s => s | Arg i => text i end) t).
 Definition markers (t : list item) : list nat :=
   concat (map (fun it => match it with Lit _ => [] | Arg i => [i] end) t).
 
